@@ -27,7 +27,7 @@ func hasAtom(w Facts, pol bool, pred func(string) bool) bool {
 func ruleComment(c *Ctx) []Obligation {
 	o := c.newObs("P-COMMENT")
 	var f *ssa.Function
-	for _, g := range c.codeImpls("render") {
+	for _, g := range c.codeImpls(c.renderName()) {
 		if g.Synthetic == "" && g.Signature.Recv() != nil && types.TypeString(g.Signature.Recv().Type(), shortQual) == "jen.comment" {
 			f = g
 		}
@@ -148,6 +148,93 @@ func reachableSinks(a *FnA, s *Sink) []*Sink {
 
 // ---------------------------------------------------------------------------------------------
 
+// tseg is one segment of a string template: literal text, or a value printed with a verb class
+// ("s" verbatim, "q" Go-quoted, "v" default, other verbs as written).
+type tseg struct {
+	lit  string
+	verb string
+	val  ssa.Value
+}
+
+func (t tseg) String() string {
+	if t.val == nil {
+		return fmt.Sprintf("%q", t.lit)
+	}
+	return "%" + t.verb + "(…)"
+}
+
+// template normalises a string expression built from concatenation, fmt.Sprintf, strconv.Quote and
+// constants into a sequence of segments, so that equivalent spellings compare equal.
+func (a *FnA) template(v ssa.Value) []tseg {
+	var out []tseg
+	add := func(t tseg) {
+		if t.val == nil && t.lit == "" {
+			return
+		}
+		if t.val == nil && len(out) > 0 && out[len(out)-1].val == nil {
+			out[len(out)-1].lit += t.lit
+			return
+		}
+		out = append(out, t)
+	}
+	var walk func(v ssa.Value)
+	walk = func(v ssa.Value) {
+		v = stripConv(v)
+		if sv, ok := constString(v); ok {
+			add(tseg{lit: sv})
+			return
+		}
+		switch x := v.(type) {
+		case *ssa.BinOp:
+			if x.Op == token.ADD {
+				walk(x.X)
+				walk(x.Y)
+				return
+			}
+		case *ssa.Call:
+			if sc := x.Call.StaticCallee(); sc != nil {
+				switch {
+				case sc.String() == "fmt.Sprintf":
+					if f, ok := constString(x.Call.Args[0]); ok {
+						if va, ok := varargs(x.Call.Args[1]); ok {
+							lits, verbs := parseFormat(f)
+							if len(verbs) == len(va) {
+								for i, vb := range verbs {
+									add(tseg{lit: lits[i]})
+									add(tseg{verb: vb, val: stripConv(va[i])})
+								}
+								add(tseg{lit: lits[len(lits)-1]})
+								return
+							}
+						}
+					}
+				case sc.String() == "fmt.Sprint":
+					if va, ok := varargs(x.Call.Args[0]); ok {
+						allStr := true
+						for _, ar := range va {
+							if b, ok := stripConv(ar).Type().Underlying().(*types.Basic); !ok || b.Info()&types.IsString == 0 {
+								allStr = false
+							}
+						}
+						if allStr { // fmt.Sprint adds no spaces between string operands
+							for _, ar := range va {
+								walk(ar)
+							}
+							return
+						}
+					}
+				case sc.String() == "strconv.Quote":
+					add(tseg{verb: "q", val: stripConv(x.Call.Args[0])})
+					return
+				}
+			}
+		}
+		add(tseg{verb: "s", val: v})
+	}
+	walk(v)
+	return out
+}
+
 // concatParts flattens a string concatenation into its operands.
 func concatParts(v ssa.Value) []ssa.Value {
 	v = stripConv(v)
@@ -160,7 +247,7 @@ func concatParts(v ssa.Value) []ssa.Value {
 func ruleTag(c *Ctx) []Obligation {
 	o := c.newObs("P-TAG")
 	var f *ssa.Function
-	for _, g := range c.codeImpls("render") {
+	for _, g := range c.codeImpls(c.renderName()) {
 		if g.Synthetic == "" && g.Signature.Recv() != nil && types.TypeString(g.Signature.Recv().Type(), shortQual) == "jen.tag" {
 			f = g
 		}
@@ -184,27 +271,86 @@ func ruleTag(c *Ctx) []Obligation {
 	}
 	S := sinks[0]
 	o.req(!inCycle(S.Call.Block()), fn, "the tag is written once", S.Call.Pos(), "")
-	// the pair formatter
-	var pair *ssa.Call
-	for _, ci := range a.calls() {
-		if fc := fmtCallOf(ci); fc != nil && fc.name == "fmt.Sprintf" && inCycle(ci.Block()) {
-			pair = ci.(*ssa.Call)
+	// the text accumulated per pair: the loop-carried string
+	var accPhi *ssa.Phi
+	for _, b := range f.Blocks {
+		for _, in := range b.Instrs {
+			phi, ok := in.(*ssa.Phi)
+			if !ok {
+				continue
+			}
+			if bt, ok := phi.Type().Underlying().(*types.Basic); !ok || bt.Info()&types.IsString == 0 {
+				continue
+			}
+			if loopHeader(b) == b {
+				accPhi = phi
+			}
 		}
 	}
-	if pair == nil {
-		o.undecided(fn, "pair formatter", f.Pos(), "no fmt.Sprintf inside the pair loop")
+	if accPhi == nil {
+		o.undecided(fn, "pair loop", f.Pos(), "no loop-carried string found")
 		return o.list
 	}
-	fc := fmtCallOf(pair)
-	lits, verbs := parseFormat(fc.format)
-	okFmt := fc.konst && len(verbs) == 2 && len(fc.args) == 2 && lits[0] == "" && lits[1] == ":" && lits[2] == "" && (verbs[0] == "s" || verbs[0] == "v") && verbs[1] == "q"
-	o.req(okFmt, fn, "each pair is key:\"value\" with the value quoted by %q", pair.Pos(), "format %q — reflect.StructTag needs a Go-quoted value after the colon", fc.format)
-	if len(fc.args) == 2 {
-		k := a.Desc(fc.args[0])
-		v := a.Desc(fc.args[1])
-		o.req(v == "recv.items["+k+"]" && !strings.Contains(k, "recv.items"), fn, "the value printed is the one stored under the key printed", pair.Pos(), "key %s value %s", k, v)
-		// the key comes from the sorted slice
-		if u, ok := stripConv(fc.args[0]).(*ssa.UnOp); ok {
+	var next ssa.Value
+	for i, e := range accPhi.Edges {
+		if accPhi.Block().Dominates(accPhi.Block().Preds[i]) {
+			next = e
+		} else if sv, ok := constString(e); !ok || sv != "" {
+			o.add(Violated, fn, "the tag text starts empty", accPhi.Pos(), true, "initial value %s", a.Desc(e))
+		}
+	}
+	if next == nil {
+		o.undecided(fn, "pair loop", accPhi.Pos(), "no back edge value")
+		return o.list
+	}
+	// next = prev [+ " "] + <pair template>
+	segs := a.template(next)
+	// leading part: the previous text, optionally followed by " " under the non-empty guard
+	okSep := false
+	sepDetail := fmt.Sprint(segs)
+	var pairSegs []tseg
+	if len(segs) > 0 && segs[0].val != nil {
+		head := segs[0].val
+		pairSegs = segs[1:]
+		if head == ssa.Value(accPhi) {
+			// unconditional concatenation: a space must follow unless empty … not expressible without a guard
+			if len(pairSegs) > 0 && pairSegs[0].lit == " " {
+				okSep = false
+				sepDetail = "a space is written before the first pair too"
+			}
+		} else if phi, ok := head.(*ssa.Phi); ok && len(phi.Edges) == 2 {
+			var plain, spaced ssa.Value
+			var spacedPred *ssa.BasicBlock
+			for i, e := range phi.Edges {
+				if b, ok := e.(*ssa.BinOp); ok && b.Op == token.ADD {
+					if sv, ok := constString(b.Y); ok && sv == " " {
+						spaced = b.X
+						spacedPred = phi.Block().Preds[i]
+					}
+				} else {
+					plain = e
+				}
+			}
+			if plain == ssa.Value(accPhi) && spaced == plain && spacedPred != nil {
+				emptyAtom := "empty(" + a.Desc(plain) + ")"
+				okSep = a.FactsOnEdge(spacedPred, phi.Block()).Has(emptyAtom, false)
+				for i, e := range phi.Edges {
+					if e == plain && !a.FactsOnEdge(phi.Block().Preds[i], phi.Block()).Has(emptyAtom, true) {
+						okSep = false
+					}
+				}
+			}
+		}
+	}
+	o.req(okSep, fn, "pairs are joined by exactly one space", accPhi.Pos(), "accumulated as %s", sepDetail)
+	// the pair template: <key verbatim> ":" <value Go-quoted>
+	okPair := len(pairSegs) == 3 && pairSegs[0].val != nil && (pairSegs[0].verb == "s" || pairSegs[0].verb == "v") && pairSegs[1].lit == ":" && pairSegs[2].val != nil && pairSegs[2].verb == "q"
+	o.req(okPair, fn, "each pair is key:\"value\" with the value Go-quoted (%q / strconv.Quote)", accPhi.Pos(), "pair text %v — reflect.StructTag needs a Go-quoted value after the colon", pairSegs)
+	if okPair {
+		k := a.Desc(pairSegs[0].val)
+		v := a.Desc(pairSegs[2].val)
+		o.req(v == "recv.items["+k+"]" && !strings.Contains(k, "recv.items"), fn, "the value printed is the one stored under the key printed", accPhi.Pos(), "key %s value %s", k, v)
+		if u, ok := stripConv(pairSegs[0].val).(*ssa.UnOp); ok {
 			if ia, ok := u.X.(*ssa.IndexAddr); ok {
 				sorted := false
 				for _, r := range nonDebugRefs(ia.X) {
@@ -212,51 +358,12 @@ func ruleTag(c *Ctx) []Obligation {
 						sorted = true
 					}
 				}
-				o.req(sorted, fn, "keys are taken from the sorted key slice", pair.Pos(), "")
+				o.req(sorted, fn, "keys are taken from the sorted key slice", accPhi.Pos(), "")
 			}
+		} else {
+			o.add(Violated, fn, "keys are taken from the sorted key slice", accPhi.Pos(), true, "key %s is not an element of the sorted slice", k)
 		}
 	}
-	// accumulation: str = str [+ " " if non-empty] + pair
-	var acc *ssa.BinOp
-	for _, r := range nonDebugRefs(pair) {
-		if b, ok := r.(*ssa.BinOp); ok && b.Op == token.ADD && b.Y == ssa.Value(pair) {
-			acc = b
-		}
-	}
-	if acc == nil {
-		o.undecided(fn, "pairs are appended to the accumulated text", pair.Pos(), "the pair is not appended by concatenation")
-		return o.list
-	}
-	okSep := false
-	sepDetail := a.Desc(acc.X)
-	if phi, ok := acc.X.(*ssa.Phi); ok && len(phi.Edges) == 2 {
-		var plain, spaced ssa.Value
-		var spacedPred *ssa.BasicBlock
-		for i, e := range phi.Edges {
-			if b, ok := e.(*ssa.BinOp); ok && b.Op == token.ADD {
-				if s, ok := constString(b.Y); ok && s == " " {
-					spaced = b.X
-					spacedPred = phi.Block().Preds[i]
-				}
-			} else {
-				plain = e
-			}
-		}
-		if plain != nil && spaced == plain && spacedPred != nil {
-			// space only if non-empty, and always if non-empty
-			fs := a.FactsOnEdge(spacedPred, phi.Block())
-			emptyAtom := "empty(" + a.Desc(plain) + ")"
-			okSep = fs.Has(emptyAtom, false)
-			for i, e := range phi.Edges {
-				if e == plain {
-					if !a.FactsOnEdge(phi.Block().Preds[i], phi.Block()).Has(emptyAtom, true) {
-						okSep = false
-					}
-				}
-			}
-		}
-	}
-	o.req(okSep, fn, "pairs are joined by exactly one space", acc.Pos(), "accumulator %s", sepDetail)
 	// final quoting
 	data := stripConv(S.Data[0])
 	phi, ok := data.(*ssa.Phi)
@@ -295,12 +402,12 @@ func ruleTag(c *Ctx) []Obligation {
 func ruleDict(c *Ctx) []Obligation {
 	o := c.newObs("P-DICT")
 	var rf, nf *ssa.Function
-	for _, g := range c.codeImpls("render") {
+	for _, g := range c.codeImpls(c.renderName()) {
 		if g.Synthetic == "" && g.Signature.Recv() != nil && types.TypeString(g.Signature.Recv().Type(), shortQual) == "jen.Dict" {
 			rf = g
 		}
 	}
-	for _, g := range c.codeImpls("isNull") {
+	for _, g := range c.codeImpls(c.nullName()) {
 		if g.Synthetic == "" && g.Signature.Recv() != nil && types.TypeString(g.Signature.Recv().Type(), shortQual) == "jen.Dict" {
 			nf = g
 		}
@@ -415,7 +522,7 @@ func ruleDict(c *Ctx) []Obligation {
 		o.req(ok, fn, fmt.Sprintf("a pair is dropped only if a side is nil / null (from block %d)", p.Index), loop.rng.Pos(), "way %s", bad)
 	}
 	// the key is rendered to a private buffer for sorting only after the null tests
-	for _, ci := range a.invokes("render") {
+	for _, ci := range a.invokes(a.c.renderName()) {
 		if !loop.blocks[ci.Block()] {
 			continue
 		}
@@ -426,7 +533,7 @@ func ruleDict(c *Ctx) []Obligation {
 	}
 	// ---- emission loop
 	var kR, vR ssa.CallInstruction
-	for _, ci := range a.invokes("render") {
+	for _, ci := range a.invokes(a.c.renderName()) {
 		if loop.blocks[ci.Block()] {
 			continue
 		}
@@ -441,7 +548,7 @@ func ruleDict(c *Ctx) []Obligation {
 	if kR == nil || vR == nil {
 		// fall back: first and second render by dominance
 		var rs []ssa.CallInstruction
-		for _, ci := range a.invokes("render") {
+		for _, ci := range a.invokes(a.c.renderName()) {
 			if !loop.blocks[ci.Block()] {
 				rs = append(rs, ci)
 			}
